@@ -83,6 +83,382 @@ theorem C24_binop_exact (op : AOp) (a b v : Value) (ha : valInRange a) (hb : val
     first
     | (subst h; exact ⟨rfl, trivial⟩)
     | skip
-  all_goals trace_state
-  all_goals sorry
+  all_goals
+    rcases arithI_exact _ _ _ _ (by first | exact ha | (split <;> decide)) h with
+      ⟨he, hv⟩ | ⟨r, he, hv, hr⟩
+    · rw [he, hv]; exact ⟨rfl, trivial⟩
+    · rw [he, hv]; exact ⟨rfl, hr⟩
+
+theorem C24_neg_exact (a v : Value) (h : evalNeg a = .ok v) :
+    idealNeg (IVal.ofValue a) = .ok (IVal.ofValue v) ∧ valInRange v := by
+  cases a <;> simp only [evalNeg, idealNeg, IVal.ofValue, Except.ok.injEq, reduceCtorEq] at h ⊢
+  · subst h; exact ⟨rfl, trivial⟩
+  · have := chk_ok h; rw [this.1]; exact ⟨rfl, this.2⟩
+
+theorem C24_abs_exact (a v : Value) (h : evalAbs a = .ok v) :
+    idealAbs (IVal.ofValue a) = .ok (IVal.ofValue v) ∧ valInRange v := by
+  cases a <;> simp only [evalAbs, idealAbs, IVal.ofValue, Except.ok.injEq, reduceCtorEq] at h ⊢
+  · subst h; exact ⟨rfl, trivial⟩
+  · have := chk_ok h; rw [this.1]; exact ⟨rfl, this.2⟩
+
+/-- **T1.** For an expression of any nesting depth whose literals are machine integers: if the
+    as-coded evaluator returns a value, it is the value `⟦e⟧ℤ` of the exact integer semantics and
+    lies in the signed 64-bit range — never a wrapped number. -/
+theorem C24_eval_exact (e : AExpr) (hl : litsInRange e) (v : Value) (h : eval e = .ok v) :
+    ideal e = .ok (IVal.ofValue v) ∧ valInRange v := by
+  induction e generalizing v with
+  | lit w =>
+    simp only [eval, Except.ok.injEq] at h
+    subst h
+    refine ⟨rfl, ?_⟩
+    cases w <;> first | trivial | exact hl
+  | bin op a b iha ihb =>
+    simp only [eval, bind, Except.bind] at h
+    cases ha : eval a with
+    | error er => rw [ha] at h; cases h
+    | ok x =>
+      rw [ha] at h
+      cases hb : eval b with
+      | error er => rw [hb] at h; cases h
+      | ok y =>
+        rw [hb] at h
+        have h1 := iha hl.1 x ha
+        have h2 := ihb hl.2 y hb
+        have h3 := C24_binop_exact op x y v h1.2 h2.2 h
+        simp only [ideal, bind, Except.bind, h1.1, h2.1]
+        exact h3
+  | neg a iha =>
+    simp only [eval, bind, Except.bind] at h
+    cases ha : eval a with
+    | error er => rw [ha] at h; cases h
+    | ok x =>
+      rw [ha] at h
+      have h1 := iha hl x ha
+      simp only [ideal, bind, Except.bind, h1.1]
+      exact C24_neg_exact x v h
+  | abs a iha =>
+    simp only [eval, bind, Except.bind] at h
+    cases ha : eval a with
+    | error er => rw [ha] at h; cases h
+    | ok x =>
+      rw [ha] at h
+      have h1 := iha hl x ha
+      simp only [ideal, bind, Except.bind, h1.1]
+      exact C24_abs_exact x v h
+
+/-- non-vacuity: a nested expression with machine literals that evaluates, and one that overflows -/
+example : litsInRange (.bin .mul (.bin .add (.lit (.int 3)) (.lit (.bool true))) (.neg (.lit (.int 5)))) ∧
+    eval (.bin .mul (.bin .add (.lit (.int 3)) (.lit (.bool true))) (.neg (.lit (.int 5)))) = .ok (.int (-20)) := by
+  refine ⟨?_, by rfl⟩
+  simp [litsInRange, Value.inRange64]
+example : eval (.bin .add (.lit (.int 9223372036854775807)) (.lit (.int 1))) = .error .overflow := by rfl
+example : eval (.bin .imod (.neg (.bin .add (.lit (.int 9223372036854775807)) (.lit (.int 0)))) (.lit (.int (-1)))) = .ok (.int 0) := by
+  rfl
+
+
+/-! ### errors are never spurious -/
+
+theorem chk_error {r : Int} {er : AErr} (h : chk r = .error er) : er = .overflow := by
+  unfold chk at h
+  split at h
+  · cases h
+  · cases h; rfl
+
+theorem arithI_error (op : AOp) (x y : Int) (er : AErr) (h : arithI op x y = .error er) :
+    er = .overflow ∨ exactOp op x y = .error er := by
+  unfold arithI at h
+  cases hop : exactOp op x y with
+  | error e => rw [hop] at h; simp at h; right; rw [h]
+  | ok o =>
+    rw [hop] at h
+    cases o with
+    | none => cases h
+    | some r =>
+      by_cases hm : op = .imod
+      · simp [hm] at h
+      · simp [hm] at h; left; exact chk_error h
+
+theorem binop_error (op : AOp) (a b : Value) (er : AErr) (h : evalBin op a b = .error er) :
+    er = .overflow ∨ idealBin op (IVal.ofValue a) (IVal.ofValue b) = .error er := by
+  cases a <;> cases b <;>
+    simp only [evalBin, idealBin, IVal.ofValue, toI64?, iToI64?, Except.error.injEq, reduceCtorEq] at h ⊢ <;>
+    first
+    | (subst h; right; rfl)
+    | skip
+  all_goals
+    rcases arithI_error _ _ _ _ h with ho | he
+    · left; exact ho
+    · right; rw [he]
+
+theorem neg_error (a : Value) (er : AErr) (h : evalNeg a = .error er) :
+    er = .overflow ∨ idealNeg (IVal.ofValue a) = .error er := by
+  cases a <;> simp only [evalNeg, idealNeg, IVal.ofValue, Except.error.injEq, reduceCtorEq] at h ⊢
+  · left; exact chk_error h
+  · subst h; right; rfl
+  · subst h; right; rfl
+
+theorem abs_error (a : Value) (er : AErr) (h : evalAbs a = .error er) :
+    er = .overflow ∨ idealAbs (IVal.ofValue a) = .error er := by
+  cases a <;> simp only [evalAbs, idealAbs, IVal.ofValue, Except.error.injEq, reduceCtorEq] at h ⊢
+  · left; exact chk_error h
+  · subst h; right; rfl
+  · subst h; right; rfl
+
+/-- **T1b.** The only error the machine range adds is `overflow`: any other error returned by the
+    as-coded evaluator (type mismatch, division by zero) is the error of the exact semantics. -/
+theorem C24_eval_error_not_spurious (e : AExpr) (hl : litsInRange e) (er : AErr)
+    (h : eval e = .error er) : er = .overflow ∨ ideal e = .error er := by
+  induction e generalizing er with
+  | lit w => simp [eval] at h
+  | bin op a b iha ihb =>
+    simp only [eval, bind, Except.bind] at h
+    cases ha : eval a with
+    | error e1 =>
+      rw [ha] at h; simp at h; subst h
+      rcases iha hl.1 e1 ha with ho | hi
+      · left; exact ho
+      · right; simp only [ideal, bind, Except.bind, hi]
+    | ok x =>
+      rw [ha] at h
+      have h1 := C24_eval_exact a hl.1 x ha
+      cases hb : eval b with
+      | error e2 =>
+        rw [hb] at h; simp at h; subst h
+        rcases ihb hl.2 e2 hb with ho | hi
+        · left; exact ho
+        · right; simp only [ideal, bind, Except.bind, h1.1, hi]
+      | ok y =>
+        rw [hb] at h
+        have h2 := C24_eval_exact b hl.2 y hb
+        rcases binop_error op x y er h with ho | hi
+        · left; exact ho
+        · right; simp only [ideal, bind, Except.bind, h1.1, h2.1]; exact hi
+  | neg a iha =>
+    simp only [eval, bind, Except.bind] at h
+    cases ha : eval a with
+    | error e1 =>
+      rw [ha] at h; simp at h; subst h
+      rcases iha hl e1 ha with ho | hi
+      · left; exact ho
+      · right; simp only [ideal, bind, Except.bind, hi]
+    | ok x =>
+      rw [ha] at h
+      have h1 := C24_eval_exact a hl x ha
+      rcases neg_error x er h with ho | hi
+      · left; exact ho
+      · right; simp only [ideal, bind, Except.bind, h1.1]; exact hi
+  | abs a iha =>
+    simp only [eval, bind, Except.bind] at h
+    cases ha : eval a with
+    | error e1 =>
+      rw [ha] at h; simp at h; subst h
+      rcases iha hl e1 ha with ho | hi
+      · left; exact ho
+      · right; simp only [ideal, bind, Except.bind, hi]
+    | ok x =>
+      rw [ha] at h
+      have h1 := C24_eval_exact a hl x ha
+      rcases abs_error x er h with ho | hi
+      · left; exact ho
+      · right; simp only [ideal, bind, Except.bind, h1.1]; exact hi
+
+
+/-! ### SUM accumulator -/
+
+theorem addSql_null (v : Value) : addSql .null v = .null := by
+  simp [addSql, evalBin]
+
+theorem addSql_int (a i : Int) :
+    addSql (.int a) (.int i) = .null ∨
+    (addSql (.int a) (.int i) = .int (a + i) ∧ Value.inRange64 (a + i) = true) := by
+  simp only [addSql, evalBin, toI64?, arithI, exactOp]
+  simp only [reduceCtorEq, if_false]
+  unfold chk
+  by_cases h : Value.inRange64 (a + i) = true
+  · right; simp [h]
+  · left; simp [h]
+
+theorem sumFold_null (vs : List Value) (n : Nat) : (vs.foldl sumStep (.null, n)).1 = .null := by
+  induction vs generalizing n with
+  | nil => rfl
+  | cons w ws ihw =>
+    rw [List.foldl_cons]
+    have : sumStep (.null, n) w = (.null, n) ∨ sumStep (.null, n) w = (.null, n + 1) := by
+      unfold sumStep
+      split
+      · left; rfl
+      · right; simp [addSql_null]
+    rcases this with h | h
+    · rw [h]; exact ihw n
+    · rw [h]; exact ihw (n + 1)
+
+/-- invariant of the fold: the running sum is NULL (sticky, after an overflow) or the exact sum so
+    far, and it stays a machine integer -/
+theorem sumFold_inv (vs : List Value) (a : Int) (n : Nat) (ha : Value.inRange64 a = true) :
+    (vs.foldl sumStep (.int a, n)).1 = .null ∨
+    ((vs.foldl sumStep (.int a, n)).1 = .int (a + exactSum vs) ∧
+      Value.inRange64 (a + exactSum vs) = true) := by
+  induction vs generalizing a n with
+  | nil => right; simpa [exactSum] using ha
+  | cons v vs ih =>
+    cases v with
+    | int i =>
+      have hstep : sumStep (.int a, n) (.int i) = (addSql (.int a) (.int i), n + 1) := by
+        simp [sumStep, Value.isNull, isNumeric]
+      rw [List.foldl_cons, hstep]
+      rcases addSql_int a i with hnull | ⟨hint, hr⟩
+      · left; rw [hnull]; exact sumFold_null vs (n + 1)
+      · rw [hint]
+        have e : a + exactSum (.int i :: vs) = a + i + exactSum vs := by simp [exactSum]; omega
+        rw [e]
+        exact ih (a + i) (n + 1) hr
+    | null =>
+      have hstep : sumStep (.int a, n) .null = (.int a, n) := by simp [sumStep, Value.isNull]
+      rw [List.foldl_cons, hstep]
+      simpa [exactSum] using ih a n ha
+    | str s =>
+      have hstep : sumStep (.int a, n) (.str s) = (.int a, n) := by simp [sumStep, Value.isNull, isNumeric]
+      rw [List.foldl_cons, hstep]
+      simpa [exactSum] using ih a n ha
+    | bool b =>
+      have hstep : sumStep (.int a, n) (.bool b) = (.int a, n) := by simp [sumStep, Value.isNull, isNumeric]
+      rw [List.foldl_cons, hstep]
+      simpa [exactSum] using ih a n ha
+
+/-- **T1c.** SUM over any input list (row-at-a-time accumulator): an integer result is the exact sum
+    of the integer inputs and a machine integer; the only other outcome is NULL. -/
+theorem C24_sum_exact (vs : List Value) :
+    sumAgg vs = .null ∨ (sumAgg vs = .int (exactSum vs) ∧ Value.inRange64 (exactSum vs) = true) := by
+  simp only [sumAgg, sumFold]
+  by_cases hc : (vs.foldl sumStep (.int 0, 0)).2 = 0
+  · left; simp [hc]
+  · rcases sumFold_inv vs 0 0 (by decide) with h | ⟨h1, h2⟩
+    · left; simp [hc, h]
+    · right; simp only [Int.zero_add] at h1 h2; simp [hc, h1, h2]
+
+example : sumAgg [.int 5, .null, .str "x", .int (-7)] = .int (-2) := by rfl
+example : sumAgg [.int 9223372036854775807, .int 1, .int (-5)] = .null := by rfl
+
+/-! ### index range scan: no pair of bounds on which `BTreeMap::range` panics -/
+
+theorem invalidRange_eq_rangePanics {κ : Type} (cmp : κ → κ → Ordering) (lo hi : Bnd κ) :
+    invalidRange cmp lo hi = rangePanics cmp lo hi := by
+  cases lo <;> cases hi <;> rfl
+
+/-- **T2.** For every key type, every total order / SQL comparison / increment function, every
+    `start`, `end`, `inclusive_start`, `inclusive_end` and both index shapes: whenever
+    `range_scan` reaches `BTreeMap::range`, the bounds are not in std's panic region. -/
+theorem C24_range_never_panics {κ : Type} (o : KeyOps κ) (multi : Bool) (start end_ : Option κ)
+    (incS incE : Bool) (lo hi : Bnd κ) (h : planOf o multi start end_ incS incE = .range lo hi) :
+    rangePanics o.cmp lo hi = false := by
+  unfold planOf at h
+  cases hg : earlyGuards o start end_ incS incE with
+  | some p =>
+    rw [hg] at h
+    simp only at h
+    subst h
+    -- early guards only produce `prefixScan` / `empty`
+    unfold earlyGuards at hg
+    split at hg
+    · split at hg
+      · cases hg
+      · split at hg
+        · cases hg
+        · split at hg
+          · cases hg
+          · cases hg
+    · cases hg
+  | none =>
+    rw [hg] at h
+    simp only at h
+    generalize (if (multi && (start.isSome || end_.isSome)) = true then multiBounds o start end_ incS incE
+      else stdBounds o start end_ incS incE) = b at h
+    by_cases hinv : invalidRange o.cmp b.1 b.2 = true
+    · simp [hinv] at h
+    · simp only [hinv] at h
+      simp only [Bool.false_eq_true, if_false] at h
+      cases h
+      rw [← invalidRange_eq_rangePanics]
+      simpa using hinv
+
+/-- the guard is needed: with the guard sequence as it was before the repair there are inputs
+    (an increment that overshoots the end, as `x + |x|·ε` does for `1.5 < b < 1.5000000000000002`)
+    that reach `BTreeMap::range` inside its panic region -/
+theorem C24_range_guard_needed :
+    ∃ (o : KeyOps Int) (multi : Bool) (s e : Option Int) (iS iE : Bool) (lo hi : Bnd Int),
+      planOfBefore o multi s e iS iE = .range lo hi ∧ rangePanics o.cmp lo hi = true :=
+  ⟨⟨compare, fun a b => decide (a > b), fun a b => decide (a = b), fun v => some (v + 2), fun v => some (v + 1), -1000⟩,
+    true, some 10, some 11, false, false, .incl 12, .excl 11, by decide, by decide⟩
+
+/-- a second region of the old guard sequence, on the key order of the real index: an end bound
+    NULL is below every number in the map's order but not comparable in SQL order -/
+theorem C24_range_guard_needed_null :
+    planOfBefore keyOps false (some (.num 10)) (some .null) true true = .range (.incl (.num 10)) (.incl .null) ∧
+    rangePanics Key.cmp (.incl (.num 10)) (.incl .null) = true := by
+  decide
+
+example : planOf keyOps true (some (.num 10)) (some (.num 40)) false true
+    = .range (.incl (.num 11)) (.excl (.num 41)) := by decide
+example : planOf keyOps false (some (.num 10)) (some .null) true true = .empty := by decide
+
+/-! ### LIMIT / OFFSET -/
+
+/-- **T2b.** `apply_limit_offset` never underflows and returns `OFFSET`-dropped, `LIMIT`-truncated rows -/
+theorem C24_limit_offset {α : Type} (rows : List α) (limit offset : Option Nat) :
+    limitOffset rows limit offset =
+      .rows (match limit with
+        | some l => (rows.drop (match offset with | some o => o | none => 0)).take l
+        | none => rows.drop (match offset with | some o => o | none => 0)) := by
+  have key : ∀ start : Nat,
+      (if start ≥ rows.length then Slice.rows []
+        else if rows.length < start then Slice.panicUnderflow
+        else Slice.rows ((rows.drop start).take (match limit with
+          | some l => min l (rows.length - start)
+          | none => rows.length - start))) =
+      Slice.rows (match limit with
+        | some l => (rows.drop start).take l
+        | none => rows.drop start) := by
+    intro start
+    by_cases hge : start ≥ rows.length
+    · have : rows.drop start = [] := List.drop_eq_nil_of_le hge
+      rw [if_pos hge]
+      cases limit <;> simp [this]
+    · rw [if_neg hge, if_neg (by omega)]
+      cases limit with
+      | none => simp only; rw [List.take_of_length_le (by simp)]
+      | some l =>
+        simp only
+        congr 1
+        by_cases hl : l ≤ rows.length - start
+        · rw [Nat.min_eq_left hl]
+        · rw [Nat.min_eq_right (by omega)]
+          rw [List.take_of_length_le (by simp), List.take_of_length_le (by simp; omega)]
+  unfold limitOffset
+  cases offset with
+  | none => exact key 0
+  | some o => exact key o
+
+/-! ### SUBSTRING -/
+
+/-- **T3.** SUBSTRING returns a contiguous run of whole characters of its argument: there is no
+    index outside the string, no start after the end, and (the model being over characters, as
+    the code after the repair iterates `chars()`) no cut inside a character. -/
+theorem C24_substring_in_bounds (s : List Char) (start : Int) (len : Option Int) :
+    ∃ pre post, s = pre ++ substring s start len ++ post ∧
+      pre.length = min (substringStart start) s.length := by
+  unfold substring
+  cases len with
+  | none =>
+    exact ⟨s.take (substringStart start), [], by simp, by simp⟩
+  | some l =>
+    simp only
+    split
+    · exact ⟨s.take (substringStart start), s.drop (substringStart start), by simp, by simp⟩
+    · refine ⟨s.take (substringStart start), (s.drop (substringStart start)).drop l.toNat, ?_, by simp⟩
+      rw [List.append_assoc, List.take_append_drop, List.take_append_drop]
+
+example : substring "héllo".toList 3 none = "llo".toList := by decide
+example : substring "héllo".toList 2 (some 1) = "é".toList := by decide
+example : substring "hello".toList (-9223372036854775807) (some 3) = "hel".toList := by decide
+
 end VibeProof.C24
